@@ -123,8 +123,8 @@ pub fn keys(ctx: &Ctx, rep: &mut Report) {
         rep.inconclusive("key generation did not return within 180 s (canary); reported as inconclusive, never as a violation".into());
         return;
     }
-    let n512 = ctx.sz(224, 6000);
-    let n1024 = ctx.sz(40, 900);
+    let n512 = ctx.sz(600, 8000);
+    let n1024 = ctx.sz(120, 1600);
     let gso512 = ctx.sz(2, 8);
     let gso1024 = ctx.sz(1, 3);
     let r = par_for(n1024, ncpu(), |i, rep| {
